@@ -93,6 +93,7 @@ package onchain
 //@ ghost liqVoutHex string
 //@ ghost liqVout uint32
 //@ ghost liqVoutOK bool
+//@ ghost liqFoundVout uint32
 
 //@ func (*LiquidOnChain).CreateOpeningAddress
 //@ pure
@@ -106,6 +107,7 @@ package onchain
 //@ requires l != nil && len(outputs) < 4294967296
 //@ loop 0 invariant @C08 none-before: (0 <= j && j <= rangeindex) ==> bytes.Compare(outputs[j].Script, liquidSwapScript(l, redeemScript)) != 0
 //@ ensures @C08,C03 found-is-the-swap-output: result1 == nil ==> (mi(result0) < mi(len(outputs)) && bytes.Compare(outputs[int(result0)].Script, liquidSwapScript(l, redeemScript)) == 0)
+//@ sets ghost.liqFoundVout = result0
 //@ ensures @C08,C03 present-is-found: (nth(1, l.CreateOpeningAddress(redeemScript)) == nil && nth(1, address.ToOutputScript(l.CreateOpeningAddress(redeemScript))) == nil && 0 <= j && j < len(outputs) && bytes.Compare(outputs[j].Script, liquidSwapScript(l, redeemScript)) == 0) ==> result1 == nil
 
 // go-elements' transaction decoder (dependency): any transaction or an error
@@ -163,6 +165,11 @@ package onchain
 //@ extern txscript (*ScriptBuilder).Script
 //@ assigns nothing
 
+//@ ghost tplMaker string
+//@ ghost tplTaker string
+//@ ghost tplHash string
+//@ ghost tplCsv uint32
+//@ ghost tplScript uint64
 //@ define sOp(s, o) uf("thenOp", uint64(0), s, o)
 //@ define sData(s, d) uf("thenData", uint64(0), s, hex.EncodeToString(d))
 //@ define sInt(s, v) uf("thenInt", uint64(0), s, v)
@@ -180,8 +187,15 @@ package onchain
 //@ requires p != nil
 // on Bitcoin the script's CSV is the chain constant 1008 wherever the node rebuilds the script
 //@ requires @C02,in:openingTxHex bitcoin-validate-uses-1008: locktimeHeight == 1008
-//@ requires @C02,in:spendingAddr bitcoin-spend-uses-1008: locktimeHeight == 1008
+//@ requires @C02,in:(*BitcoinOnChain).PrepareSpendingTransaction bitcoin-spend-uses-1008: locktimeHeight == 1008
 //@ ensures @C02 roles: result1 == nil ==> ghost.script == openingTemplate(hex.DecodeString(p.MakerPubkey), hex.DecodeString(p.TakerPubkey), hex.DecodeString(p.ClaimPaymentHash), locktimeHeight)
+// what the last script was built from (the parameter strings are values: callers
+// can compare them after calls that are not followed)
+//@ sets ghost.tplMaker = old(p.MakerPubkey)
+//@ sets ghost.tplTaker = old(p.TakerPubkey)
+//@ sets ghost.tplHash = old(p.ClaimPaymentHash)
+//@ sets ghost.tplCsv = locktimeHeight
+//@ sets ghost.tplScript = ghost.script
 
 // the CSV constants of the chains
 //@ lemma C02.csv
@@ -192,9 +206,37 @@ package onchain
 //@ func (*BitcoinOnChain).ValidateTx
 //@ property C02 C01
 //@ requires b != nil && swapParams != nil
+// (the id of a decoded transaction: a function of the message object, which the
+// code never modifies after decoding)
+//@ extern wire (*MsgTx).TxHash
+//@ pureref
+//@ extern wire (*MsgTx).SerializeSizeStripped
+//@ assigns nothing
+//@ extern chainhash (Hash).String
+//@ pure
+
 //@ func (*BitcoinOnChain).PrepareSpendingTransaction
 //@ property C02 C03
 //@ requires b != nil && swapParams != nil && claimParams != nil
+//@ ensures @C03 spends-the-given-opening-tx: result3 == nil ==> ghost.decodedBytes == hex.DecodeString(claimParams.OpeningTxHex)
+//@ ensures @C03 one-input-spending-vout: result3 == nil ==> (result0 != nil && len(result0.TxIn) == 1 && result0.TxIn[0].PreviousOutPoint.Index == vout && result0.TxIn[0].PreviousOutPoint.Hash == ghost.decodedTx.TxHash())
+//@ ensures @C03 sequence-is-csv: result3 == nil ==> result0.TxIn[0].Sequence == csv
+// (BIP 68: the relative lock of nSequence is only enforced from version 2 on)
+//@ ensures @C03 version-2-no-locktime: result3 == nil ==> (result0.Version == 2 && result0.LockTime == 0)
+//@ ensures @C03 one-output: result3 == nil ==> len(result0.TxOut) == 1
+//@ ensures @C03 value-minus-margin-and-given-fee: (result3 == nil && preparedFee != 0) ==> result0.TxOut[0].Value == ghost.decodedTx.TxOut[int(vout)].Value - 200 - int64(preparedFee)
+//@ ensures @C03 value-minus-margin-and-estimated-fee: (result3 == nil && preparedFee == 0) ==> result0.TxOut[0].Value == ghost.decodedTx.TxOut[int(vout)].Value - 200 - int64(ghost.lastFee)
+//@ ensures @C03 sighash-over-swap-amount-and-script: result3 == nil ==> (ghost.sighashAmount == int64(swapParams.Amount) && ghost.sighashIdx == 0 && ghost.sighashType == 1 && ghost.sighashScript == result2)
+//@ ensures @C03,C02 redeem-script-is-the-opening-script: result3 == nil ==> ghost.script == openingTemplate(hex.DecodeString(swapParams.MakerPubkey), hex.DecodeString(swapParams.TakerPubkey), hex.DecodeString(swapParams.ClaimPaymentHash), uint32(1008))
+// what the wallet adapters must hand over (checked at their call sites): the
+// output index of a successful GetVoutAndVerify of this very opening transaction,
+// and an address the node's own wallet just issued
+//@ requires @C03,in:claimParams spends-the-verified-output: ghost.voutOK && ghost.voutCheckedHex == claimParams.OpeningTxHex && vout == ghost.voutChecked
+//@ requires @C03,in:claimParams pays-own-wallet-address: spendingAddr == ghost.walletAddr
+//@ sets ghost.spendCsv = csv
+//@ sets ghost.spendVout = vout
+//@ sets ghost.spendHex = claimParams.OpeningTxHex
+//@ sets ghost.spendAddr = spendingAddr
 
 // ---------------------------------------------------------------------------
 // C03 (Bitcoin): the spending transaction PrepareSpendingTransaction builds has
@@ -226,3 +268,114 @@ package onchain
 //@ assigns nothing
 //@ extern btcutil DecodeAddress
 //@ assigns nothing
+
+//@ ghost walletAddr string
+//@ ghost witnessKind int
+
+// witness shapes (C03): preimage claim  <sig|ALL> <preimage> <> <> <script>;
+// CSV refund  <sig|ALL> <script>;  cooperative  <takerSig|ALL> <makerSig|ALL> <> <script>
+//@ func GetPreimageWitness
+//@ property C03
+//@ ensures @C03 shape: len(result) == 5 && result[1] == preimage && len(result[2]) == 0 && len(result[3]) == 0 && result[4] == redeemScript
+//@ ensures @C03 sig-with-sighash-all: len(result[0]) == len(signature) + 1 && result[0][len(signature)] == 1
+//@ sets ghost.witnessKind = 1
+//@ func GetCsvWitness
+//@ property C03
+//@ ensures @C03 shape: len(result) == 2 && result[1] == redeemScript
+//@ ensures @C03 sig-with-sighash-all: len(result[0]) == len(signature) + 1 && result[0][len(signature)] == 1
+//@ sets ghost.witnessKind = 2
+//@ func GetCooperativeWitness
+//@ property C03
+//@ ensures @C03 shape: len(result) == 4 && len(result[2]) == 0 && result[3] == redeemScript
+//@ ensures @C03 sigs-with-sighash-all: len(result[0]) == len(takerSig) + 1 && result[0][len(takerSig)] == 1 && len(result[1]) == len(makerSig) + 1 && result[1][len(makerSig)] == 1
+//@ sets ghost.witnessKind = 3
+
+// ---------------------------------------------------------------------------
+// C03 (Liquid): the spending transaction createSpendingTransaction builds is a
+// version-2 transaction with exactly one input, spending the output FindVout
+// located for this redeem script in the decoded opening transaction, with
+// nSequence == csv, and two outputs (the receiver's and the explicit fee); the
+// output it spends passed validateOpeningOutput for the swap amount. The
+// confidential arithmetic (commitments, proofs) is library code outside the
+// verifier: the value paid is ubRes.Value - preparedFee by the code, checked
+// only up to the subtraction.
+// ---------------------------------------------------------------------------
+//@ ghost liqSpendCsv uint32
+//@ ghost liqSpendScript []byte
+//@ ghost liqSpendAddr string
+//@ ghost liqSpendFee uint64
+
+// the signature hash of a Liquid transaction (go-elements, ASSUMED): serialises
+// the transaction it is called on and modifies nothing
+//@ extern transaction (*Transaction).HashForWitnessV0
+//@ assigns nothing
+
+//@ func (*LiquidOnChain).createSpendingTransaction
+//@ property C03
+//@ requires l != nil
+//@ ensures @C03 zero-fee-rejected: preparedFee == 0 ==> result2 != nil
+//@ ensures @C03 version-2: result2 == nil ==> (result0 != nil && result0.Version == 2)
+//@ ensures @C03 one-input-with-sequence-csv: result2 == nil ==> (len(result0.Inputs) == 1 && result0.Inputs[0] != nil && result0.Inputs[0].Sequence == csv)
+//@ ensures @C03 receiver-and-fee-output: result2 == nil ==> len(result0.Outputs) == 2
+// (go-elements keeps the two top bits of an outpoint index for issuance / pegin flags)
+//@ ensures @C03 spends-the-output-found: (result2 == nil && ghost.liqFoundVout < 1073741824) ==> result0.Inputs[0].Index == ghost.liqFoundVout
+//@ sets ghost.liqSpendCsv = csv
+//@ sets ghost.liqSpendScript = redeemScript
+//@ sets ghost.liqSpendAddr = redeemAddr
+//@ sets ghost.liqSpendFee = preparedFee
+
+//@ func (*LiquidOnChain).prepareSpendingTransaction
+//@ property C03 C02
+//@ requires l != nil && swapParams != nil && claimParams != nil
+//@ ensures @C03 sequence-as-asked: result3 == nil ==> (result0 != nil && len(result0.Inputs) == 1 && result0.Inputs[0] != nil && result0.Inputs[0].Sequence == csv && ghost.liqSpendCsv == csv)
+//@ ensures @C03 pays-the-given-address-and-fee: result3 == nil ==> (ghost.liqSpendAddr == spendingAddr && ghost.liqSpendFee == preparedFee)
+//@ ensures @C03 zero-fee-rejected: preparedFee == 0 ==> result3 != nil
+//@ ensures @C03 signs-for-the-returned-script: result3 == nil ==> ghost.liqSpendScript == result2
+//@ ensures @C03,C02 redeem-script-is-the-opening-script: result3 == nil ==> (ghost.script == ghost.tplScript && ghost.tplMaker == old(swapParams.MakerPubkey) && ghost.tplTaker == old(swapParams.TakerPubkey) && ghost.tplHash == old(swapParams.ClaimPaymentHash) && ghost.tplCsv == old(swapParams.CSV))
+
+//@ interface wallet.Wallet.GetAddress
+//@ sets ghost.walletAddr = ite(result1 == nil, result0, old(ghost.walletAddr))
+//@ assigns nothing
+//@ interface wallet.Wallet.SendRawTx
+//@ assigns nothing
+//@ interface wallet.Wallet.GetFee
+//@ assigns nothing
+
+//@ func (*LiquidOnChain).createPreimageSpendingTransaction
+//@ property C03
+//@ requires l != nil && swapParams != nil && claimParams != nil
+//@ ensures @C03 no-relative-lock: result3 == nil ==> ghost.liqSpendCsv == 0
+//@ ensures @C03 pays-own-wallet-address: result3 == nil ==> (ghost.liqSpendAddr == ghost.walletAddr && result2 == ghost.walletAddr)
+//@ ensures @C03 preimage-witness: result3 == nil ==> ghost.witnessKind == 1
+//@ ensures @C03 fee-as-given: result3 == nil ==> (ghost.liqSpendFee == fee && fee != 0)
+
+//@ func (*LiquidOnChain).createCsvSpendingTransaction
+//@ property C03
+//@ requires l != nil && swapParams != nil && claimParams != nil
+//@ ensures @C03 sequence-is-the-script-csv: result3 == nil ==> (ghost.liqSpendCsv == ghost.tplCsv && ghost.script == ghost.tplScript)
+//@ ensures @C03 pays-own-wallet-address: result3 == nil ==> (ghost.liqSpendAddr == ghost.walletAddr && result2 == ghost.walletAddr)
+//@ ensures @C03 csv-witness: result3 == nil ==> ghost.witnessKind == 2
+//@ ensures @C03 fee-as-given: result3 == nil ==> (ghost.liqSpendFee == fee && fee != 0)
+
+//@ func (*LiquidOnChain).createCoopSpendingTransaction
+//@ property C03
+//@ requires l != nil && swapParams != nil && claimParams != nil
+//@ ensures @C03 no-relative-lock: result3 == nil ==> ghost.liqSpendCsv == 0
+//@ ensures @C03 pays-own-wallet-address: result3 == nil ==> (ghost.liqSpendAddr == ghost.walletAddr && result2 == ghost.walletAddr)
+//@ ensures @C03 coop-witness: result3 == nil ==> ghost.witnessKind == 3
+//@ ensures @C03 fee-as-given: result3 == nil ==> (ghost.liqSpendFee == fee && fee != 0)
+
+// the exported entry points: the fee is the wallet's estimate, or the fixed
+// placeholder (500 sat) when the wallet cannot estimate; never zero
+//@ func (*LiquidOnChain).CreatePreimageSpendingTransaction
+//@ property C03
+//@ requires l != nil && swapParams != nil && claimParams != nil
+//@ ensures @C03 claim-shape: result3 == nil ==> (ghost.liqSpendCsv == 0 && ghost.witnessKind == 1 && ghost.liqSpendAddr == ghost.walletAddr && ghost.liqSpendFee != 0)
+//@ func (*LiquidOnChain).CreateCsvSpendingTransaction
+//@ property C03
+//@ requires l != nil && swapParams != nil && claimParams != nil
+//@ ensures @C03 refund-shape: result3 == nil ==> (ghost.liqSpendCsv == ghost.tplCsv && ghost.witnessKind == 2 && ghost.liqSpendAddr == ghost.walletAddr && ghost.liqSpendFee != 0)
+//@ func (*LiquidOnChain).CreateCoopSpendingTransaction
+//@ property C03
+//@ requires l != nil && swapParams != nil && claimParams != nil
+//@ ensures @C03 coop-shape: result3 == nil ==> (ghost.liqSpendCsv == 0 && ghost.witnessKind == 3 && ghost.liqSpendAddr == ghost.walletAddr && ghost.liqSpendFee != 0)
